@@ -225,6 +225,13 @@ impl<'p> CoroutinePool<'p> {
             }
             std::thread::sleep(Duration::from_millis(1));
         }
+        if self.get_running_size() > 0 || !self.task_queue.is_empty() {
+            // accepted tasks have not all run yet: stay in `Stopping`, do not report success
+            return Err(Error::new(
+                ErrorKind::TimedOut,
+                "stop timeout, some accepted tasks are not finished yet",
+            ));
+        }
         assert_eq!(PoolState::Stopping, self.stopped()?);
         self.do_clean();
         Ok(())
@@ -317,6 +324,10 @@ impl<'p> CoroutinePool<'p> {
                     return Err(Error::new(ErrorKind::TimedOut, "wait timeout"));
                 }
             }
+        }
+        if PoolState::Stopped == self.state() {
+            // nobody will ever run the task or settle this waiter
+            return Err(Error::other("The coroutine pool has stopped"));
         }
         let arc = if let Some(arc) = self.waits.get(&task_id) {
             arc.clone()
